@@ -206,7 +206,7 @@ func genProgram(r *rng, p genParams) *Prog {
 				add(Step{Op: "attrgroup", K: r.intn(8), A: sel(), B: sel()})
 			}
 		case x < 6:
-			add(Step{Op: "global", K: []int{0, 1, 2, 3, 4, 6, 7, 8, 9}[r.intn(9)], A: sel(), P: deco(), Name: name()})
+			add(Step{Op: "global", K: []int{0, 1, 2, 3, 4, 6, 7, 8, 9, 10}[r.intn(10)], A: sel(), P: deco(), Name: name()})
 		case x < 10:
 			add(Step{Op: "func", K: r.intn(5), A: r.intn(4), B: sel(), C: sel(), D: sel(), P: deco(), Name: name()})
 		case x < 20:
@@ -975,7 +975,23 @@ func (mc *machine) exec1(s Step) bool {
 	case "global":
 		name := mc.uniq(mc.gnames, s.Name)
 		var g *ir.Global
-		switch s.K % 10 {
+		switch s.K % 12 {
+		case 10, 11:
+			// Two constants that agree in their low 64 bits: v as an i32 (or i64) and
+			// 2^64+v as an i128; the wide one first, so that the final print meets it
+			// first.
+			vals := []int64{5000, 12345, 100000, 70000, 4100, 65536, 1000000, 4096}
+			v := vals[s.A%len(vals)]
+			wide := new(big.Int).Lsh(big.NewInt(1), 64)
+			wide.Add(wide, big.NewInt(v))
+			gw := mc.m.NewGlobalDef(name, &constant.Int{Typ: types.I128, X: wide})
+			mc.globals = append(mc.globals, gw)
+			nt := tI32
+			if s.A/8%2 == 1 {
+				nt = tI64
+			}
+			g = mc.m.NewGlobalDef(mc.uniq(mc.gnames, ""), constant.NewInt(nt, v))
+			mc.probes["two integer constants that agree in their low 64 bits"]++
 		case 9:
 			// an integer constant large enough to be a candidate for hexadecimal notation
 			big := []int64{1000000, 4294901760, 65536, 4096, 305419896, 2863311530, 1099511627775}
